@@ -117,16 +117,7 @@ func uniqifyName(definitions spec.Definitions, name string) (string, bool) {
 		return name, isOAIGen
 	}
 
-	unq := true
-	for k := range definitions {
-		if strings.EqualFold(k, name) {
-			unq = false
-
-			break
-		}
-	}
-
-	if unq {
+	if !hasNameFold(definitions, name) {
 		return name, isOAIGen
 	}
 
@@ -134,15 +125,25 @@ func uniqifyName(definitions spec.Definitions, name string) (string, bool) {
 	isOAIGen = true
 	var idx int
 	unique := name
-	_, known := definitions[unique]
 
-	for known {
+	// the suffixed name must be unique up to case as well
+	for hasNameFold(definitions, unique) {
 		idx++
 		unique = fmt.Sprintf("%s%d", name, idx)
-		_, known = definitions[unique]
 	}
 
 	return unique, isOAIGen
+}
+
+// hasNameFold tells whether a definition already bears this name, up to letter case
+func hasNameFold(definitions spec.Definitions, name string) bool {
+	for k := range definitions {
+		if strings.EqualFold(k, name) {
+			return true
+		}
+	}
+
+	return false
 }
 
 func namesFromKey(parts sortref.SplitKey, aschema *AnalyzedSchema, operations map[string]operations.OpRef) []string {
